@@ -44,7 +44,7 @@ def mapEntries (M : Csc α) (f : Nat → Nat → α → α) : Csc α :=
   { M with nzval := M.nzval.mapIdx (fun t v => f (M.rowval.getD t 0) (M.colIdx.getD t 0) v) }
 
 /-- stored entries `(row, col, value)` in storage order -/
-def entries (M : Csc α) : List (Nat × Nat × α) :=
+def storedEntries (M : Csc α) : List (Nat × Nat × α) :=
   M.rowval.toList.zip (M.colIdx.toList.zip M.nzval.toList)
 
 end Csc
@@ -66,7 +66,7 @@ def bump (norms : Array α) (i : Nat) (v : α) : Array α := norms.modify i (fun
 
 /-- `col_norms_no_reset`: for every stored entry, `norms[col] = max(norms[col], |v|)` -/
 def colNormsNoReset (M : Csc α) (norms : Array α) : Array α :=
-  M.entries.foldl (fun ns e => bump ns e.2.1 (fabs e.2.2)) norms
+  M.storedEntries.foldl (fun ns e => bump ns e.2.1 (fabs e.2.2)) norms
 
 /-- `col_norms` -/
 def colNorms (M : Csc α) (norms : Array α) : Array α :=
@@ -74,12 +74,12 @@ def colNorms (M : Csc α) (norms : Array α) : Array α :=
 
 /-- `col_norms_sym` (after the reset): every stored entry bumps its column and its row -/
 def colNormsSym (M : Csc α) (norms : Array α) : Array α :=
-  M.entries.foldl (fun ns e => bump (bump ns e.2.1 (fabs e.2.2)) e.1 (fabs e.2.2))
+  M.storedEntries.foldl (fun ns e => bump (bump ns e.2.1 (fabs e.2.2)) e.1 (fabs e.2.2))
     (norms.map (fun _ => 0))
 
 /-- `row_norms` (after the reset) -/
 def rowNorms (M : Csc α) (norms : Array α) : Array α :=
-  M.entries.foldl (fun ns e => bump ns e.1 (fabs e.2.2)) (norms.map (fun _ => 0))
+  M.storedEntries.foldl (fun ns e => bump ns e.1 (fabs e.2.2)) (norms.map (fun _ => 0))
 
 /-- `kkt_col_norms(P, A, norm_LHS, norm_RHS)` -/
 def kktColNorms (P A : Csc α) (normLHS normRHS : Array α) : Array α × Array α :=
